@@ -62,8 +62,11 @@ def run_check(pid, tier, seed, replay=None):
     consts = vlib.gen_constants()
 
     # 2. proof obligations
-    theorems = vlib.property_theorems(pid)
-    targets = ["Properties/%s.vo" % pid] + ["Extract/%s.vo" % g for g in getattr(spec, "EXTRACTS", [spec.GROUP.capitalize()] if getattr(spec, "GROUP", None) else [])]
+    prop_files = getattr(spec, "PROP_FILES", [pid])
+    theorems = []
+    for pf in prop_files:
+        theorems += vlib.property_theorems(pf)
+    targets = ["Properties/%s.vo" % pf for pf in prop_files] + ["Extract/%s.vo" % g for g in getattr(spec, "EXTRACTS", [spec.GROUP.capitalize()] if getattr(spec, "GROUP", None) else [])]
     ok, out = vlib.coq_make(targets)
     discharged = 0
     assumptions = {}
@@ -72,11 +75,11 @@ def run_check(pid, tier, seed, replay=None):
         violations.append(Violation("proof obligation no longer checks: make %s failed" % " ".join(targets), found_input=False,
                                     detail=out[-3000:]))
         # try to keep the executable model alive for the failing-input search
-        ok2, out2 = vlib.coq_make(targets[1:]) if len(targets) > 1 else (True, "")
+        ok2, out2 = vlib.coq_make(targets[len(prop_files):]) if len(targets) > len(prop_files) else (True, "")
         if not ok2:
             raise CheckError("model does not build either:\n" + out2[-3000:])
     else:
-        assumptions, raw = vlib.audit_assumptions(pid, theorems)
+        assumptions, raw = vlib.audit_assumptions(pid, theorems, prop_files)
         if assumptions is None:
             raise CheckError("assumption audit failed:\n" + raw[-3000:])
         for t in theorems:
